@@ -683,7 +683,7 @@ fn main() {
     let max_len = ctx.pick(4usize, 5usize);
     let max_len_nolabel = ctx.pick(4usize, 6usize);
     let max_width = ctx.pick(6usize, 8usize);
-    let wrap_len = ctx.pick(7usize, 9usize);
+    let wrap_len = ctx.pick(7usize, 8usize);
     let wrap_label_len = ctx.pick(5usize, 6usize);
 
     let tally = Tally {
